@@ -418,3 +418,5 @@
         lemma_bitlen_bounds(b);
         lemma_bits_range(v, c * j, c);
     }
+    pub open spec fn w1_step(gamma2: int) -> int { if gamma2 == 95_232 { 192 } else { 128 } }   // 32 * bitlen((q-1)/(2 gamma2) - 1)
+    pub open spec fn w1_bytes(w: Seq<u8>, gamma2: int, i: int) -> Seq<u8> { w.subrange(i * w1_step(gamma2), (i + 1) * w1_step(gamma2)) }
